@@ -185,7 +185,7 @@ func init() {
 		reproDeferredCrossing(c, a)
 		partIntegrityStorm(c, a)
 		partStepThrough(c, a, []string{"compadd-vs-compadd", "join", "entityadd"}) // (every request is answered: nothing wedges)
-		partSignedLatency(c, a) // (a refused request in the middle of a measurement changes nothing)
+		partSignedLatency(c, a)                                                    // (a refused request in the middle of a measurement changes nothing)
 		partReceiptAnswers(c, a)
 		return a.finish(c)
 	}
@@ -221,6 +221,7 @@ func init() {
 				return marks(s, "comp-change:2-subscribers-1-other", "comp-change:no-subscriber")
 			})
 		partStepThrough(c, a, []string{"compupd-vs-unsub", "sub-vs-sub", "leave"})
+		partBigSession(c, a)
 		return a.finish(c)
 	}
 	registry["C14"] = func(c *check.Ctx) int {
@@ -232,6 +233,7 @@ func init() {
 			})
 		partIntegrityStorm(c, a)
 		partStepThrough(c, a, []string{"customto-vs-customto", "custom"})
+		partBigSession(c, a)
 		return a.finish(c)
 	}
 	registry["C16"] = func(c *check.Ctx) int {
